@@ -6,5 +6,8 @@ ENGINES = {
     "C05": ("vf.engines.prim", {}),
     "C07": ("vf.engines.prim", {}),
     "C09": ("vf.engines.prim", {}),
+    "C03": ("vf.engines.graph", {}),
+    "C10": ("vf.engines.graph", {}),
+    "C11": ("vf.engines.graph", {}),
 }
 PROPS = sorted(ENGINES)
